@@ -27,7 +27,7 @@ NextMsg(q) == Min(q[1].left, q[1].mss)
 PopMsg(q) == IF q[1].left <= q[1].mss THEN Tail(q) ELSE <<[q[1] EXCEPT !.left = @ - q[1].mss]>> \o Tail(q)
 
 Init == /\ l = 1
-        /\ cf = [cipher |-> "nil", d |-> 0, p |-> 0, stream |-> TRUE, closemid |-> FALSE, faulty |-> FALSE]
+        /\ cf = [cipher |-> "nil", d |-> 0, p |-> 0, stream |-> TRUE, closemid |-> FALSE, faulty |-> FALSE, clean |-> FALSE]
         /\ exp = [c \in Conns |-> <<>>] /\ rdoff = [c \in Conns |-> 0]
         /\ fec = [f \in {} |-> 0] /\ pf = -2 /\ en = -1 /\ rem = [c \in Conns |-> 0]
 
@@ -36,7 +36,7 @@ Next ==
   /\ LET t == Trace[l] IN
      IF t.ev = "reset"
        THEN /\ cf' = [cipher |-> t.cfg.cipher, d |-> t.cfg.d, p |-> t.cfg.p, stream |-> t.cfg.stream, closemid |-> t.closemid,
-                      faulty |-> t.faulty]
+                      faulty |-> t.faulty, clean |-> t.clean]
             /\ exp' = [c \in Conns |-> <<>>] /\ rdoff' = [c \in Conns |-> 0] /\ fec' = [f \in {} |-> 0] /\ pf' = -2 /\ en' = -1
             /\ rem' = [c \in Conns |-> 0]
        ELSE
@@ -79,6 +79,13 @@ C02_TransferCompletes == Is("end") /\ ~cf.closemid => Obs.complete
 (* ("wadmit" is emitted under the session mutex in the branch of WriteBuffers that queues the data; waitsnd is computed *)
 (* by the hook from the two send rings, not taken from the code's own variable)                                        *)
 C04_WriteAdmission == Is("wadmit") => Obs.waitsnd < Obs.sndwnd
+
+(* ---- C18 (session level) ---- *)
+(* clean path (nothing lost / duplicated / reordered, RTT incl. the peer's acknowledgement delay below the minimum RTO, reader keeps *)
+(* up, receive window >= min(send window, 32)): no data segment is on the wire twice, the retransmission counter does not move      *)
+C18_SessNoRetransOnCleanPath == Is("end") /\ cf.clean => Obs.retrans = 0 /\ Obs.wire_resent = 0
+(* the RTO a session reports, sampled throughout every run *)
+C18_SessRtoBounds == Is("bounds") => Obs.minrto <= Obs.rto /\ Obs.rto <= 60000
 
 (* ---- C09: frame layout, FEC numbering, nonce freshness ---- *)
 C09_Layout == Genuine => /\ Obs.cryptok                                  \* integrity field verifies under the reference cipher
